@@ -1030,6 +1030,7 @@ pub fn run_recv(seed: u64, reps: usize, thorough: bool, out: &mut dyn Write) -> 
                 let bases = base_responses(fam, proto, src, tgt);
                 let mut n = 0u64;
                 let (mut some, mut none, mut errs, mut panics) = (0u64, 0u64, 0u64, 0u64);
+                let mut unread = 0u64;
                 let mut sites: std::collections::BTreeMap<String, (u64, String, usize)> = std::collections::BTreeMap::new();
                 let mut feed = |bytes: &[u8], ch: &mut Channel<SimSocket>| {
                     n += 1;
@@ -1046,17 +1047,18 @@ pub fn run_recv(seed: u64, reps: usize, thorough: bool, out: &mut dyn Write) -> 
                             e.0 += 1;
                         }
                     }
-                    sim::with_world(|w| w.events.clear());
+                    unread += sim::with_world(|w| {
+                        w.events.clear();
+                        w.clear_queue()
+                    }) as u64;
                 };
                 for base in &bases {
                     // the structural prefix: outer IP header (IPv4), ICMP header, nested IP header, nested
                     // transport header, and the extension header / first object header
                     let prefix = base.len().min(if fam == 4 { 20 + 8 + 20 + 20 } else { 8 + 40 + 20 });
-                    let lens: Vec<usize> = if thorough {
-                        (0..=base.len() + 8).collect()
-                    } else {
-                        (0..=base.len() + 8).filter(|l| *l < 100 || l % 7 == 0 || *l + 12 > base.len()).collect()
-                    };
+                    // the lengths around every structural boundary; the thorough tier adds all 256 octet values per
+                    // position and more lengths per value, not all lengths x all values (2e8 receive calls: hours)
+                    let lens: Vec<usize> = (0..=base.len() + 8).filter(|l| *l < 100 || l % 7 == 0 || *l + 12 > base.len()).collect();
                     let mut positions: Vec<usize> = (0..prefix).collect();
                     if base.len() > 140 {
                         positions.extend(base.len() - 24..base.len());
@@ -1070,7 +1072,7 @@ pub fn run_recv(seed: u64, reps: usize, thorough: bool, out: &mut dyn Write) -> 
                         for v in vals {
                             let mut b = base.clone();
                             b[pos] = v;
-                            if thorough || pos < 12 {
+                            if pos < 12 {
                                 for l in &lens {
                                     let mut t = b.clone();
                                     t.resize(*l, 0);
@@ -1078,9 +1080,14 @@ pub fn run_recv(seed: u64, reps: usize, thorough: bool, out: &mut dyn Write) -> 
                                 }
                             } else {
                                 feed(&b, &mut ch);
-                                let l = lens[rng.random_range(0..lens.len())];
-                                b.resize(l, 0);
-                                feed(&b, &mut ch);
+                                // every octet value at every structural position, each at a few buffer lengths
+                                // (all lengths x all values x all positions is ~2e8 receive calls: hours)
+                                for _ in 0..(if thorough { 12 } else { 1 }) {
+                                    let l = lens[rng.random_range(0..lens.len())];
+                                    let mut t = b.clone();
+                                    t.resize(l, 0);
+                                    feed(&t, &mut ch);
+                                }
                             }
                         }
                     }
@@ -1116,7 +1123,7 @@ pub fn run_recv(seed: u64, reps: usize, thorough: bool, out: &mut dyn Write) -> 
                 total_panics += panics as usize;
                 let sites_json: Vec<Value> = sites.iter().map(|(s, (c, h, l))| json!({"site":s,"count":c,"len":l,"hex":h})).collect();
                 writeln!(out, "{}", json!({"e":"fz","target":"recv","ty":format!("{proto}/{fam}/{}", if ext {"ext"} else {"noext"}),
-                    "n":n,"some":some,"none":none,"errs":errs,"panics":panics,"sites":sites_json})).unwrap();
+                    "n":n,"some":some,"none":none,"errs":errs,"panics":panics,"unread":unread,"sites":sites_json})).unwrap();
                 events += 1;
                 let _ = sim::take();
             }
